@@ -603,9 +603,10 @@ def zset_history(ctx, srv, g, n, label='zrand'):
 class PubSubGen:
     """C14 traffic for several clients: returns (client index, argv) or ('close', client index)."""
 
-    def __init__(self, rnd, nclients=4):
+    def __init__(self, rnd, nclients=4, kills=True):
         self.rnd = rnd
         self.n = nclients
+        self.kills = kills
         self.chans = [b'news', b'mews', b'n', b'news.sport', b'\xffbin', b'a b']
         self.pats = [b'*', b'n*', b'?ews', b'[mn]ews', b'news.*', b'x*', b'n?']
         self.msgs = [b'hello', b'', b'\r\n', b'\x00\xff', b'm' * 50, b'1']
@@ -626,6 +627,8 @@ class PubSubGen:
             return c, [b'UNSUBSCRIBE']
         if k == 9:
             return ('close', c) if r.random() < 0.5 else (c, [b'PUNSUBSCRIBE'])
+        if k == 10 and self.kills:
+            return ('kill', c, r.randrange(self.n))      # c ends another client's connection (CLIENT KILL ID): its subscriptions end with it
         return c, [b'PUBLISH', r.choice(self.chans), r.choice(self.msgs)]
 
 
@@ -633,6 +636,7 @@ def pubsub_history(ctx, srv, g, n, label='pubsub'):
     s = fresh_session(ctx, srv, label)
     try:
         cmap = {}
+        sids = {}
         for j in range(n):
             st = g.next()
             if st[0] == 'close':
@@ -642,9 +646,26 @@ def pubsub_history(ctx, srv, g, n, label='pubsub'):
                     s.close(cmap[c])
                     del cmap[c]
                 continue
+            if st[0] == 'kill':
+                c, v = st[1], st[2]
+                for x in (c, v):
+                    if cmap.get(x) not in s.clients:
+                        cmap[x] = s.open()
+                        r = s.cmd(cmap[x], [b'CLIENT', b'ID'])
+                        sids[x] = r[1] if r[0] == 'int' else None
+                if c == v or sids.get(v) is None or cmap.get(c) not in s.clients or cmap.get(v) not in s.clients:
+                    continue
+                s.poll(cmap[v])
+                s.cmd(cmap[c], [b'CLIENT', b'KILL', b'ID', str(sids[v]).encode()])
+                # the victim notices at its next request (answered by a close); until then nothing may reach it
+                continue
             c, a = st
             if cmap.get(c) not in s.clients:
                 cmap[c] = s.open()
+                r = s.cmd(cmap[c], [b'CLIENT', b'ID'])
+                sids[c] = r[1] if r[0] == 'int' else None
+            if cmap.get(c) not in s.clients:
+                continue
             s.cmd(cmap[c], a)
             if a[0] == b'PUBLISH':
                 s.poll_all()
